@@ -420,8 +420,8 @@ def plan(tier):
             if COST.get(e, 0) > .3:
                 continue                      # ex11 ex15* ex20b ex21: thorough only
             p.append((("exp:" if COST.get(e, 0) < .15 else "ex:") + e, bound(e, 4.0, 2)))
-        for seq in gen.sequences("quick"):
-            p.append(("gen:" + ",".join(seq), None))
+        for seq, k in gen.sequences("quick"):
+            p.append(("gen:" + ",".join(seq), k))
     else:
         for e in ALL_EXAMPLES:
             p.append(("ex:" + e, bound(e, 120.0, 3)))
@@ -429,8 +429,8 @@ def plan(tier):
             if COST.get(e, 0) > .3:
                 continue
             p.append(("exp:" + e, bound(e, 60.0, 3)))
-        for seq in gen.sequences("thorough"):
-            p.append(("gen:" + ",".join(seq), None))
+        for seq, k in gen.sequences("thorough"):
+            p.append(("gen:" + ",".join(seq), k))
     return p
 
 
@@ -509,7 +509,8 @@ def run(tier):
         done = core.explore_cases(cases, run_case, ev, findings, pool, chunksize=4, deadline=dl) if not dl.passed() else False
         ev.bound("%s: %d inputs, %d executions (complete cut x entry-point space for n<=5 unless a deviation bound is listed)" % (
             gname, len(gkeys), len(cases)), done, executions=len(cases),
-            deviation_bounds={k: kmap[k] for k in gkeys if kmap[k] is not None} if gname.startswith("shipped") else {})
+            deviation_bounds={k: kmap[k] for k in gkeys if kmap[k] is not None} if gname.startswith("shipped") else
+            {"inputs_with_deviation_bound_%d" % b: sum(1 for k in gkeys if kmap[k] == b) for b in sorted(set(v for v in (kmap[k] for k in gkeys) if v is not None))})
     pool.close()
     ev.extra["executions"] = {"lattice_points": n_exec + len(keys), "non_default_executions": n_exec, "default_executions": len(keys),
                               "excluded_writer_reader_cuts": n_excl, "inputs_not_error_free": len(notok), "inputs_crashed_in_dump_call": len(crashed)}
